@@ -267,9 +267,11 @@ Lemma fval_mul a b : fval (fp_mul a b) = (fval a * fval b) mod P. Proof. reflexi
 Lemma fval_sub a b : fval (fp_sub a b) = (fval a - fval b) mod P. Proof. reflexivity. Qed.
 Lemma fval_opp a : fval (fp_opp a) = (- fval a) mod P. Proof. reflexivity. Qed.
 
+Lemma fval_0 : fval (fp_of 0) = 0. Proof. reflexivity. Qed.
+Lemma fval_1 : fval (fp_of 1) = 1. Proof. reflexivity. Qed.
 Local Ltac fp_ring :=
-  intros; apply Fp_eq; rewrite ?fval_add, ?fval_mul, ?fval_sub, ?fval_opp, ?fval_of;
-  rewrite ?fval_add, ?fval_mul, ?fval_sub, ?fval_opp, ?fval_of;
+  intros; apply Fp_eq; rewrite ?fval_add, ?fval_mul, ?fval_sub, ?fval_opp, ?fval_0, ?fval_1;
+  rewrite ?fval_add, ?fval_mul, ?fval_sub, ?fval_opp, ?fval_0, ?fval_1;
   repeat (rewrite ?Z.add_mod_idemp_l, ?Z.add_mod_idemp_r, ?Z.mul_mod_idemp_l, ?Z.mul_mod_idemp_r,
             ?Zminus_mod_idemp_l, ?Zminus_mod_idemp_r by (unfold P; lia));
   try (f_equal; ring).
